@@ -363,7 +363,7 @@ pub struct IdenPool {
 impl IdenPool {
     pub fn new() -> Self {
         IdenPool {
-            slots: (0..NAMES.len()).map(|_| None).collect(),
+            slots: (0..2 * NAMES.len()).map(|_| None).collect(),
             shared_hits: 0,
         }
     }
@@ -429,25 +429,30 @@ impl Ctx<'static> {
 
 impl<'a> Ctx<'a> {
     pub fn iden(&mut self, s: &IdenSpec) -> DynIden {
+        let make = |s: &IdenSpec, live: bool| -> DynIden {
+            if s.alias {
+                SeaRc::new(Alias::new(s.n.clone()))
+            } else {
+                SeaRc::new(SimIden {
+                    name: s.n.clone(),
+                    live,
+                })
+            }
+        };
         if let (Some(pool), Some(k)) = (self.pool, s.slot) {
             let mut p = pool.borrow_mut();
-            let k = k as usize % p.slots.len();
+            let half = p.slots.len() / 2;
+            let k = k as usize % half + if s.alias { half } else { 0 };
             if let Some(d) = &p.slots[k] {
                 let d = d.clone();
                 p.shared_hits += 1;
                 return d;
             }
-            let d: DynIden = SeaRc::new(SimIden {
-                name: s.n.clone(),
-                live: self.live,
-            });
+            let d = make(s, self.live);
             p.slots[k] = Some(d.clone());
             return d;
         }
-        SeaRc::new(SimIden {
-            name: s.n.clone(),
-            live: self.live,
-        })
+        make(s, self.live)
     }
 
     pub fn iter<T>(&mut self, v: Vec<T>, b: IterB) -> SimIter<T> {
